@@ -29,6 +29,9 @@ CLAIMED = {
  "C12": dict(level="exploration", tech="stateful (model-based) property-based testing of API histories over Biscuit and UnverifiedBiscuit, with a reload oracle after every step, an author-AST oracle and RefAuthz",
    text="Generated histories of append / append_third_party / seal / reload / API switch are executed through the API the state is in; after every step the in-memory object and its reload must print the same block sources, expose the same symbols, keys and accessors, serialise to the same bytes and authorize identically under generated authorizers; every printed block must parse back to the AST its author supplied and the outcome must equal RefAuthz on the plan. Crafted (RefSigner) tokens whose first-party block redeclares a symbol or key of an earlier block or the default table must be refused.",
    note="contents use grammar-normal expressions and plain strings so that printing is parseable; block-level scopes are compared through authorization only (open C14 finding)", ref="4 C12"),
+ "C13": dict(level="exploration", tech="round-trip property-based testing of snapshots and saved policies (snapshot -> restore -> structural and behavioural comparison)",
+   text="For generated tokens (third-party blocks with own symbols and keys, key scopes naming earlier and later blocks, or no token) and authorizers, snapshots are taken before run, after authorize, after a query and after a run that hit the iteration limit, in struct / raw / base64 form, restored and compared: facts per origin, rules, checks, policies, limits, iterations, authorize() outcome and query/query_all on probe rules; AuthorizerBuilder snapshots and save()/AuthorizerPolicies/Authorizer::from are compared likewise.",
+   note="both sides are the library's (round trip); the view is read from snapshot()/dump(); saved policies with key scopes cannot be serialised (open finding)", ref="4 C13"),
  "C14": dict(level="exploration", tech="round-trip property-based testing (print -> parse -> compare ASTs) over grammar-derived items, blocks and authorizer dumps",
    text="Facts, rules, checks and policies derived from the grammar (all term types, nested collections, every operator and method, closures, explicit Parens exactly where the grammar needs them, scopes with both key algorithms, strings over all of Unicode biased to quote/backslash/newline/Datalog fragments) are printed with Display and parsed back with FromStr; tokens are printed with print_block_source and rebuilt with BlockBuilder::code; authorizers are dumped and rebuilt; any parse failure or structural difference is a violation. Strict And/Or (wire only) are probed separately.",
    note="the AST generator is the reference; four open findings (block / authorizer scope not printed, strict And/Or syntax) are tolerated by signature", ref="4 C14"),
